@@ -5,7 +5,7 @@
 set -u
 prop=$1; chg=$2; dst=$3; pkgs=$4; cgo=${5:-}
 wt=/tmp/vw-$prop-$$
-export GOFLAGS=-mod=mod GOPROXY=off
+export GOFLAGS="-mod=mod ${EXTRA_GOFLAGS:-}" GOPROXY=off
 [ "$cgo" = cgo0 ] && export CGO_ENABLED=0
 git -C /repo worktree add -q --detach $wt HEAD || exit 2
 res() { echo "SEED-RESULT $prop $(basename $chg) $1"; }
